@@ -57,6 +57,8 @@ type Env struct {
 	Model  *Model
 	H      *History
 	Seed   uint64
+	// Def is the caller's defaults object handed to Config.
+	Def *Cfg
 
 	mu       sync.Mutex
 	cbLog    []CBEvent
@@ -226,7 +228,8 @@ func StartWith(parent context.Context, seed uint64, o Opts, initLayers func(e *E
 			e.exitCB(ev)
 		}
 	}
-	d, err := p.Config(e.S.Ctx, e.S.Defaults(), sources...)
+	e.Def = e.S.Defaults()
+	d, err := p.Config(e.S.Ctx, e.Def, sources...)
 	if err != nil {
 		e.S.Cancel()
 		return e, err
@@ -267,6 +270,18 @@ func (e *Env) onHook(name string, ctx context.Context, args []any) {
 	}
 	if h := e.ExtraHook; h != nil {
 		h(name, ctx, args)
+	}
+}
+
+// ScribbleCallerDefaults overwrites, after Config has returned, what the caller's own defaults object holds (also
+// behind its nested pointer). The caller owns that object; Dials must have taken its own copy.
+func (e *Env) ScribbleCallerDefaults() {
+	if e.Def == nil {
+		return
+	}
+	e.Def.C, e.Def.S = -777, "scribbled-by-the-caller"
+	if e.Def.N != nil {
+		e.Def.N.X, e.Def.N.Y = -778, "scribbled-by-the-caller"
 	}
 }
 
